@@ -14,7 +14,7 @@
    of the maps: neither changes a sequential run; metadata are values here, a step carries the
    contents of the handler's map at call time, and sharing of maps is covered by Copy.v and by the
    harness, which keeps modifying the maps it passed in or was given.)
-   The four repairs made to stream.go are switchable ([fixes]) so that the code as it was
+   The six repairs made to stream.go are switchable ([fixes]) so that the code as it was
    ([fx_v0]) stays available; the current code is [fx_now].  No proofs in this file. *)
 From SC Require Import Base.Prelude.
 
@@ -46,8 +46,12 @@ Inductive step :=
 (* [CtxEnd dl] (constructor below, after [Cancel]) is the non-terminal form of [Cancel dl]: the
    client's context ends in the same way, but the handler then goes on with the actions that follow
    in the list (SetH / SendH / SetT, S2C = a SendMsg that fails, RecvEOF = a RecvMsg that fails) up
-   to its return [Ret].  What those calls return to the handler is not part of the transcript: on
-   a real connection it depends on whether the stream reset has been processed yet. *)
+   to its return [Ret].  The handler has seen its context end ([SDone]); from then on its SendMsg and
+   SendHeader fail and its RecvMsg fails with the context's error (the client not having half-closed,
+   nothing can be waiting to be received), on both transports -- on a real server as soon as the
+   transport has marked the stream done, an instant after it cancelled the handler's context (the
+   harness repeats a call that still succeeds there).  What SetHeader returns is not part of the
+   transcript: the wrapper accepts metadata that nobody will see, a real server refuses it. *)
 
 (* the calling context: still live, cancelled, or past its deadline; ctx.Err() tells the last two apart *)
 Inductive ctxend := CtxLive | CtxCanceled | CtxExpired.
@@ -107,10 +111,12 @@ Record fixes := mkFx {
   fx_hdr_on_close : bool;   (* Close latches headers that were set but not sent *)
   fx_late_seth : bool;      (* SetHeader fails once the latch is closed *)
   fx_ctx_err : bool;        (* operations abandoned because the parent context ended return ctx.Err() *)
-  fx_send_done : bool       (* server SendMsg looks at the context before latching the headers *)
+  fx_send_done : bool;      (* server SendMsg looks at the context before latching the headers *)
+  fx_sendh_done : bool;     (* server SendHeader looks at the context first and publishes nothing on a finished call *)
+  fx_misuse : bool          (* the client side remembers CloseSend: a second one does nothing, a later SendMsg is refused *)
 }.
-Definition fx_now := mkFx true true true true.
-Definition fx_v0 := mkFx false false false false.
+Definition fx_now := mkFx true true true true true true.
+Definition fx_v0 := mkFx false false false false false false.
 
 Record wst := mkW {
   w_header : md;            (* s.header *)
@@ -146,10 +152,11 @@ Definition w_SetHeader (fx : fixes) (h : md) (s : wst) : wst * bool :=
   else (set_header (w_header s ++ h) s, true).
 
 (* serverStream.SendHeader *)
-Definition w_SendHeader (h : md) (s : wst) : wst * bool :=
-  if w_sent s then (s, false) else (set_sent (set_header (w_header s ++ h) s), true).
+Definition w_SendHeader (fx : fixes) (h : md) (s : wst) : wst * bool :=
+  if fx_sendh_done fx && w_done s then (s, false)     (* ctx.Err() != nil: return doneErr() *)
+  else if w_sent s then (s, false) else (set_sent (set_header (w_header s ++ h) s), true).
 
-Definition w_sendHeaderIfNeeded (s : wst) : wst := fst (w_SendHeader [] s).
+Definition w_sendHeaderIfNeeded (fx : fixes) (s : wst) : wst := fst (w_SendHeader fx [] s).
 
 Definition w_SetTrailer (t : md) (s : wst) : wst := set_trailer (w_trailer s ++ t) s.
 
@@ -162,11 +169,11 @@ Definition w_doneErr (fx : fixes) (s : wst) : goerr :=
 
 (* serverStream.SendMsg when the context is already done (no receiver): what it leaves behind *)
 Definition w_server_send_done (fx : fixes) (s : wst) : wst :=
-  if fx_send_done fx then s else w_sendHeaderIfNeeded s.
+  if fx_send_done fx then s else w_sendHeaderIfNeeded fx s.
 
 (* ClientServerStream.Close *)
 Definition w_Close (fx : fixes) (e : option goerr) (s : wst) : wst :=
-  let s1 := if fx_hdr_on_close fx && negb (w_cancelled s) then w_sendHeaderIfNeeded s else s in
+  let s1 := if fx_hdr_on_close fx && negb (w_cancelled s) then w_sendHeaderIfNeeded fx s else s in
   mkW (w_header s1) (w_sent s1) (w_trailer s1) true e (w_ctx s1) (w_half s1).
 
 (* clientStream.Header: blocks until the latch closes or the context is done *)
@@ -208,18 +215,19 @@ Definition w_step (fx : fixes) (sh : shape) (r : wrun) (st : step) : wrun * (lis
       if w_done s || w_half s then (r, stuck)
       else (r, ([CSent true], [SGot m]))
   | S2C m =>
-      let s1 := w_sendHeaderIfNeeded s in
-      if w_gone s then (mkWR (w_server_send_done fx s) (wr_resp r) false, ([], []))   (* SendMsg fails *)
+      let s1 := w_sendHeaderIfNeeded fx s in
+      if w_gone s then (mkWR (w_server_send_done fx s) (wr_resp r) false, ([], [SSent false]))   (* SendMsg fails: doneErr *)
       else if w_done s then (r, stuck)
       else (mkWR s1 (negb (ss sh)) false, ([CGot m], [SSent true]))
   | SetH h => let '(s1, ok) := w_SetHeader fx h s in
               (mkWR s1 (wr_resp r) false, ([], if w_gone s then [] else [SSetH ok]))
-  | SendH h => let '(s1, ok) := w_SendHeader h s in
-               (mkWR s1 (wr_resp r) false, ([], if w_gone s then [] else [SSendH ok]))
+  | SendH h => let '(s1, ok) := w_SendHeader fx h s in
+               (mkWR s1 (wr_resp r) false, ([], [SSendH ok]))
   | SetT t => (mkWR (w_SetTrailer t s) (wr_resp r) false, ([], []))
   | CloseSend => (mkWR (set_half s) (wr_resp r) false, ([CClosed], []))
   | RecvEOF =>
-      if w_gone s then (if w_half s then (r, stuck) (* both select cases ready *) else (r, ([], [])))
+      if w_gone s then (if w_half s then (r, stuck) (* both select cases ready *)
+                        else (r, ([], [w_server_recv_done fx s])))   (* only ctx.Done() is ready: doneErr *)
       else if w_half s && negb (w_done s) then (r, ([], [SEof])) else (r, stuck)
   | CHeader =>
       match w_Header s with
@@ -253,7 +261,7 @@ Definition w_step (fx : fixes) (sh : shape) (r : wrun) (st : step) : wrun * (lis
         (* unary handler (Invoke's goroutine, or adaptUnaryToStream): send the response, then Close *)
         match rt with
         | RetOk resp =>
-            let s1 := w_sendHeaderIfNeeded s in
+            let s1 := w_sendHeaderIfNeeded fx s in
             let s2 := w_Close fx None s1 in
             (* Invoke reads headers and trailers right after RecvMsg; Close does not change them *)
             (mkWR s2 true true, ([CGot resp] ++ epilogue_w s2, []))
@@ -346,10 +354,14 @@ Definition newstream_lookup (m : Z) (d_ss d_cs : bool) : option Z :=
 Inductive misuse := SendAfterCloseSend | CloseSendTwice.
 Inductive mres := MNil | MErr (code : Z) | MPanic.
 
-(* clientStream.CloseSend closes clientSend; a later SendMsg selects on a send to the closed channel
-   (the context being live, that case is chosen: panic "send on closed channel"), a second CloseSend
-   closes it again (panic "close of closed channel") *)
-Definition w_misuse (k : misuse) : mres := match k with SendAfterCloseSend => MPanic | CloseSendTwice => MPanic end.
+(* clientStream.CloseSend closes clientSend, once (sendClosed): a second CloseSend returns nil, a later
+   SendMsg finds the flag set and returns an Internal status.
+   Before that repair: the later SendMsg selected on a send to the closed channel (the context being live,
+   that case is chosen: panic "send on closed channel"), a second CloseSend closed it again (panic "close
+   of closed channel") *)
+Definition w_misuse (fx : fixes) (k : misuse) : mres :=
+  if fx_misuse fx then match k with SendAfterCloseSend => MErr 13 | CloseSendTwice => MNil end
+  else MPanic.
 
 (* ---------- unwrap.go ---------- *)
 
